@@ -1437,6 +1437,9 @@ def exec_for_std(spec, ip, s, env, f, ordinal):
     ctx, st = ip.ctx, ip.st
     tag = f"{f.qualname}/loop{ordinal}"
     it = ip.eval(s.iter, env, f.modpath)
+    h_ = getattr(ctx.unit, "on_for_loop", None)
+    if h_ is not None:
+        h_(ip, it)  # a unit may record that this iterable is asked for elements (at least once)
     if isinstance(it, RangeVal):
         start = ip.term(it.start, INT)
         stop = ip.term(it.stop, INT)
